@@ -103,3 +103,6 @@ import PyYetiVerif.Props.C18TranM
 #print axioms PyYetiVerif.C18.formtran0_phg
 #print axioms PyYetiVerif.C18.formtran0_pha
 #print axioms PyYetiVerif.C18.formtran_mset_composition
+#print axioms PyYetiVerif.C18.dotChain_append
+#print axioms PyYetiVerif.C18.ulvsPath_mono
+#print axioms PyYetiVerif.C18.ulvsPath_split
